@@ -116,6 +116,9 @@ def r1_raise_census(ctx, chk, rule="C06.1"):
                 chk.ok(rule, f.where(r), "`%s` guards the value of an option of %s (a parameter with a default): the documented call does not pass it" % (norm_stmt(r)[:60], f.short))
             elif name == "NotImplementedError" and f.cls is not None and _abstract_stub(ctx, f):
                 chk.ok(rule, f.where(r), "abstract stub: every node class that the game builds overrides %s, the base version cannot run" % f.name)
+            elif name in ("KeyError", "IndexError") and _explicit_lookup_failure(ctx, f, r):
+                chk.undecided(rule, f.where(r), "`%s` under a failed membership test of its own argument: the explicit form of the look-up that would fail anyway; "
+                              "whether a well-formed game can get there is not decided here" % norm_stmt(r)[:80])
             else:
                 chk.violation(rule, f.where(r), "solve() can fail with %s: `%s`; the documented failure mode is ValueError" % (name, norm_stmt(r)),
                               expected="ValueError", found=name, construct="%s raises %s" % (f.short, name))
@@ -408,6 +411,35 @@ def _used(k, res_term):
         if any(t == res_term for t in C02._sub(e)):
             return True
     return False
+
+
+def _explicit_lookup_failure(ctx, f, r):
+    """`if x not in D: raise KeyError(x)` (the test possibly through a one-line predicate helper `return x in D`)."""
+    p = getattr(r, "parent", None)
+    if not (isinstance(p, ast.If) and r in p.body and len(p.body) == 1 and isinstance(r.exc, ast.Call) and len(r.exc.args) == 1 and isinstance(r.exc.args[0], ast.Name)):
+        return False
+    x = r.exc.args[0].id
+    t = p.test
+    neg = False
+    while isinstance(t, ast.UnaryOp) and isinstance(t.op, ast.Not):
+        neg, t = not neg, t.operand
+    if isinstance(t, ast.Call) and t.args and isinstance(t.args[0], ast.Name) and t.args[0].id == x:
+        gs = ctx.cg.resolve(t, f)
+        if len(gs) != 1:
+            return False
+        body = [b for b in gs[0].node.body if not (isinstance(b, ast.Expr) and isinstance(b.value, ast.Constant))]
+        if len(body) != 1 or not isinstance(body[0], ast.Return) or not isinstance(body[0].value, ast.Compare):
+            return False
+        c = body[0].value
+        par = [a.arg for a in gs[0].node.args.args]
+        if not (len(c.ops) == 1 and isinstance(c.left, ast.Name) and par and c.left.id == par[0]):
+            return False
+        op = c.ops[0]
+    elif isinstance(t, ast.Compare) and len(t.ops) == 1 and isinstance(t.left, ast.Name) and t.left.id == x:
+        op = t.ops[0]
+    else:
+        return False
+    return (isinstance(op, ast.In) and neg) or (isinstance(op, ast.NotIn) and not neg)
 
 
 def _nonempty_guard(k, L):
@@ -783,8 +815,26 @@ def r4_fixpoint_loops(ctx, chk, rule="C06.4"):
                         # previous := this round's value
                         if L.update.get(pv) is not None and any(x == cur[0] for x in C02._sub(L.update[pv])) or L.update.get(pv) == cur[0]:
                             ok = True
+                recognised = u is None or bool(ok)
+                if not ok and u is not None and u[0] == "cmp" and u[1] == "==":
+                    # `finished = current == previous; previous = current` with the current round's value any expression (a set built by a
+                    # comprehension, a frozenset, ...), possibly compared through set() / frozenset() on both sides
+                    def unwrap(x):
+                        while x[0] == "call" and x[1] in ("set", "frozenset", "sorted", "tuple", "list") and len(x[2]) == 1 and not x[3]:
+                            x = x[2][0]
+                        return x
+                    for a_, b_ in ((u[2], u[3]), (u[3], u[2])):
+                        pa = unwrap(a_)
+                        if pa[0] == "acc" and pa[1] == L.id:
+                            recognised = True
+                            upd = L.update.get(pa[2])
+                            if upd is not None and (upd == b_ or unwrap(upd) == unwrap(b_)) and not any(x[0] == "acc" and x[1] == L.id and x[2] == pa[2] for x in C02._sub(b_)):
+                                ok = True
                 if ok and not L.has_break:
                     chk.ok(rule, where, "fixed-point loop: `%s` becomes true when two consecutive rounds agree, and the previous round is replaced by the current one" % done)
+                    continue
+                if not recognised:
+                    chk.undecided(rule, where, "the exit flag of `while not %s` is updated by `%s`: not recognised as 'this round == previous round'" % (done, show(u)[:120]))
                     continue
                 chk.violation(rule, where, "the loop `while not %s` does not have the fixed-point exit 'this round == previous round' (update `%s`): it may never terminate, or stop before the pruning is stable" % (
                     done, show(u)[:120] if u is not None else None), expected="%s = (current == previous); previous = current" % done, found=show(u)[:160] if u is not None else "none",
@@ -901,6 +951,10 @@ def run(ctx, chk):
     # observed through the batch driver: run_games()[name]['msg'] must be this game's, this mode's value
     from . import C12 as _C12
     _C12.observe(ctx, chk, "C06.obs", ['msg'], with_msg=True)
+    # the property speaks of every solve: nothing computed by one solve (a memo on the game object, on a class, in a module)
+    # may be handed to the next one - a second solve of the same object, or of another game, would report stale values
+    from . import C10 as _C10
+    _C10.r2_no_carried_state(ctx, chk, "C06.pre:C10.2")
     r1_raise_census(ctx, chk)
     r1b_try_census(ctx, chk)
     r1c_budget_raises(ctx, chk)
